@@ -1167,6 +1167,14 @@ impl<K: AsRef<Key>> SigningContext<K> {
         };
         let variables = tsig.variables();
 
+        // RFC 8945, section 5.2.2.1: a MAC that is longer than the output of
+        // the algorithm or shorter than the larger of 10 octets and half the
+        // output length is a format error, not a truncation policy matter.
+        if !algorithm.within_len_bounds(tsig.record.data().mac_slice().len())
+        {
+            return Err(ServerError::unsigned(TsigRcode::FORMERR));
+        }
+
         // 4.5.3 MAC check
         //
         // Contrary to RFC 2845, this must be done before the time check.
